@@ -2,6 +2,7 @@ SPECIFICATION SpecExplain
 CONSTANTS
   Files = {"r", "a", "b", "c"}
   Root = "r"
+  SubFiles = {"b"}
   MaxDepth = 8
   FileSeq <- Seq4
   MaxStmts = 0
